@@ -1,3 +1,5 @@
+pub mod bulk;
 pub mod nan;
+pub mod order;
 pub mod quant;
 pub mod sel;
